@@ -621,3 +621,201 @@ def r_repair(ctx, view):
                    "guard `%s.0 < size` reached on every path; its true side re-links the moved entry" % term_str(k)[:40] if ok else
                    "the true side of the repair guard performs no index repair on path %s" % path_lines(f, joined))
     ctx.floor("R-REPAIR", n, 4)
+
+
+# ------------------------------------------------------------------------------------------
+# R-GROWVAL: the element pushed onto heap / qp when the store grows is the new entry's own number
+# ------------------------------------------------------------------------------------------
+FRESH_STORE_CTORS = ("with_capacity_and_hasher", "with_hasher", "with_default_hasher", "default", "new", "with_capacity")
+
+
+def _single_def(f, l):
+    ds = f.defs.get(l, [])
+    if len(ds) == 1 and not f.locals[l]["arg"] and not f.partial.get(l):
+        return ds[0]
+    return None
+
+
+def trace_quantity(view, f, o, depth=0):
+    """follow the operand `o` backwards through single-assignment copies, the Position/Index constructors and the
+    checked-arithmetic tuple projections to the place where its number comes from:
+    ('read', quantity, bb) | ('counter', local) | ('const', n) | ('unknown', why)"""
+    if depth > 12:
+        return ("unknown", "too deep")
+    if o["k"] == "const":
+        n = const_int(("const", o["s"]))
+        return ("const", n) if n is not None else ("unknown", o["s"])
+    pl = o["place"]
+    l = pl["local"]
+    proj = [e for e in pl["proj"]]
+    # reads of the size field:  (*_1).size , (*_1).store.size
+    if proj and proj[-1]["k"] == "field" and proj[-1].get("name") == "size" and proj[-1].get("of") == STORE:
+        return ("read", "size", None)   # caller supplies the block
+    d = _single_def(f, l)
+    if d is None:
+        ds = f.defs.get(l, [])
+        if len(ds) > 1 and all(x[0] == "stmt" for x in ds):
+            return ("counter", l)
+        return ("unknown", "local _%d has %d definitions" % (l, len(ds)))
+    # `.0` of a Position/Index or of a checked-arithmetic pair is looked through
+    if d[0] == "call":
+        t = d[2]
+        if "func" not in t:
+            return ("unknown", "indirect call")
+        nm = t["func"]["name"]
+        ci = view.fx.call_info(f, d[1])
+        args = view.fx.args_vp(ci)
+        if nm == "len" and args:
+            a = strip(args[0])
+            c = component(a)
+            if c and c[0] in ("map", "heap", "qp"):
+                return ("read", c[0] + ".len", d[1])
+            if ci.local_callee and ci.local_callee.split("::")[-1] == "len":
+                return ("read", "size", d[1])   # Store::len / queue len return the size field (R-READERS)
+        if nm == "index" and t["func"]["key"].startswith("indexmap::map::") and "Entry" in t["func"]["key"]:
+            return ("read", "entry.index", d[1])
+        return ("unknown", "result of %s" % t["func"]["key"])
+    s = d[3]
+    rv = s["rv"]
+    if rv["k"] == "use":
+        r = trace_quantity(view, f, rv["op"], depth + 1)
+        if r[0] == "read" and r[2] is None:
+            return ("read", r[1], d[1])
+        return r
+    if rv["k"] == "aggregate" and rv.get("agg") == "adt" and rv.get("path", "").split("::")[-1] in ("Position", "Index") and len(rv["ops"]) == 1:
+        r = trace_quantity(view, f, rv["ops"][0], depth + 1)
+        if r[0] == "read" and r[2] is None:
+            return ("read", r[1], d[1])
+        return r
+    if rv["k"] == "cast":
+        return trace_quantity(view, f, rv["op"], depth + 1)
+    return ("unknown", "computed by %s" % rv["k"])
+
+
+def r_growval(ctx, view, only=None):
+    """R-GROWVAL.  Every `heap.push(Index(n))` / `qp.push(Position(n))` of a growth group pushes the number of the entry
+    being added: n is read from the length (`size`, `len()`, the map's or the table's own length, the vacant entry's
+    index) at a point where that length has not yet grown in this group, and nothing but the group's own growth happens
+    between the read and the push; or n is a local counter that starts at the length (0 on a store created in the same
+    function) under the same conditions, moves by +1 only and is finally assigned to `size` (the automaton pairs its
+    increments with the pushes)."""
+    from .rules_bounds import RB
+    prog = view.prog
+    fx = view.fx
+    ctx.cur = view
+    rb = RB(view)
+    n = 0
+    for f in sorted(prog.fns.values(), key=lambda x: x.key):
+        if only and not only(f):
+            continue
+        evs = fx.events(f)
+        pushes = [e for e in evs if e["kind"] == "tw" and e.get("how") == "call:push" and e["comp"] in ("heap", "qp")]
+        if not pushes:
+            continue
+        cfg = f.cfg
+        lcb = rb.len_change_blocks(f)
+        back = {(a, h) for lp in cfg.loops for (a, h) in lp["backedges"]}
+
+        def fwd(frm, stop=None):
+            """blocks reachable from frm along forward (non back-edge) edges"""
+            seen = {frm}
+            st = [frm]
+            while st:
+                x = st.pop()
+                for y in cfg.succ[x]:
+                    if (x, y) in back or y in seen:
+                        continue
+                    seen.add(y)
+                    st.append(y)
+            return seen
+
+        def growth_blocks(comp):
+            out = set()
+            for e in evs:
+                if comp == "size" and e["kind"] == "tw" and e["comp"] == "size":
+                    out.add(e["bb"])
+                if comp == "map" and e["kind"] == "mw" and e.get("mclass") == "grow":
+                    out.add(e["bb"])
+                if comp in ("heap", "qp") and e["kind"] == "tw" and e["comp"] == comp and e.get("how") == "call:push":
+                    out.add(e["bb"])
+            return out
+
+        own_growth = growth_blocks("size") | growth_blocks("map") | growth_blocks("heap") | growth_blocks("qp")
+
+        def check_read(q, rbb, pbb):
+            comp = {"size": "size", "map.len": "map", "entry.index": "map", "heap.len": "heap", "qp.len": "qp"}[q]
+            # (A) the quantity has not yet grown in this group when it is read
+            for g in growth_blocks(comp):
+                if g != rbb and rbb in fwd(g):
+                    return False, "the %s is read (bb%d) after it has already grown in the same group (bb%d)" % (q, rbb, g)
+            # (B) between the read and the push only the group's own growth happens
+            region = fwd(rbb) & {b for b in cfg.reach if pbb in fwd(b)}
+            for b in sorted(region - {rbb, pbb}):
+                if b in lcb and b not in own_growth:
+                    return False, "between the read of %s (bb%d) and the push, bb%d (line %d) changes the length or exchanges the store" % (
+                        q, rbb, b, f.term(b)["span"]["line"])
+                if b in lcb and lcb[b][0] and b in own_growth:
+                    return False, "between the read of %s (bb%d) and the push, bb%d removes elements" % (q, rbb, b)
+            return True, "%s read at bb%d, before it grows; only the group's own growth lies between" % (q, rbb)
+
+        for e in pushes:
+            t = f.term(e["bb"])
+            n += 1
+            key = "%s:%s.push" % (short(f.key), e["comp"])
+            if len(t["args"]) < 2:
+                ctx.ob("R-GROWVAL", key, False, f.loc(t["span"]), "push without a value")
+                continue
+            want = "Index" if e["comp"] == "heap" else "Position"
+            aty = t["args"][1].get("place", {}).get("ty") or t["args"][1].get("ty") or ""
+            if not aty.endswith(want):
+                ctx.ob("R-GROWVAL", key, False, f.loc(t["span"]), "pushes a %s, the table holds %s" % (aty, want))
+                continue
+            r = trace_quantity(view, f, t["args"][1])
+            if r[0] == "read":
+                ok, why = check_read(r[1], r[2], e["bb"])
+            elif r[0] == "counter":
+                l = r[1]
+                ok, why = True, ""
+                inits = []
+                for d in f.defs[l]:
+                    rv = d[3]["rv"]
+                    x = view.vp.rvalue(f, rv)
+                    x = x[1] if x[0] == "field" and x[1][0] == "binop" else x
+                    if x[0] == "binop" and x[1].startswith("Add") and const_int(strip(x[3])) == 1 and rv["k"] in ("use", "binop"):
+                        # _l = move (_tmp.0) where _tmp = AddWithOverflow(copy _l, 1): the increment
+                        continue
+                    inits.append(d)
+                if l not in counter_locals(view, f):
+                    ok, why = False, "the counter `%s` is not what `size` is finally set to: its increments are not paired with the pushes" % (f.locals[l]["name"] or "_%d" % l)
+                elif len(inits) != 1:
+                    ok, why = False, "the counter `%s` has %d initialisers / non-unit steps" % (f.locals[l]["name"] or "_%d" % l, len(inits))
+                else:
+                    d0 = inits[0]
+                    r0 = trace_quantity(view, f, d0[3]["rv"]["op"]) if d0[3]["rv"]["k"] == "use" else ("unknown", d0[3]["rv"]["k"])
+                    if r0[0] == "read" and r0[2] is None:
+                        r0 = ("read", r0[1], d0[1])
+                    if r0[0] == "const" and r0[1] == 0:
+                        # the store being filled must have been created empty in this function
+                        root = e.get("root")
+                        fresh = False
+                        rt = strip(root) if root else None
+                        if rt is not None:
+                            for x in walk(rt):
+                                if x[0] == "call" and x[1].split("::")[-1] in FRESH_STORE_CTORS:
+                                    fresh = True
+                        ok, why = (True, "counter from 0 on a store created empty in this function") if fresh else \
+                                  (False, "counter starts at 0 but the store (%s) is not created empty here" % term_str(root)[:60])
+                    elif r0[0] == "read":
+                        ok, why = check_read(r0[1], r0[2], e["bb"])
+                        if ok:
+                            why = "counter initialised from " + why
+                    else:
+                        ok, why = False, "counter initialised from %s" % (r0[1],)
+            elif r[0] == "const":
+                ok, why = False, "pushes the constant %s" % r[1]
+            else:
+                ok, why = False, "pushed number is not a length read or a counter: %s" % (r[1],)
+            ctx.ob("R-GROWVAL", key, ok, f.loc(t["span"]), why)
+    if not only:
+        ctx.floor("R-GROWVAL", n, 12)
+    return n
